@@ -300,10 +300,15 @@ def run(rep: Report, prog: Program, tier: str) -> None:
                 arr = 1000 + (i // 5) * 50
                 size, ssrc = 300 + (i % 4) * 250, 1234
             out.append((send_ms, arr, size, ssrc))
+        if kind.startswith("sparse"):
+            times = {"sparse: 0, 10, 3500 ms": (0, 10, 3500), "sparse: long pauses": (0, 2000, 2010, 5000, 9000, 9010, 14000),
+                     "sparse: 200 ms of packets, 1.6 s pause, resume": tuple(range(0, 200, 10)) + tuple(range(1800, 3400, 10))}[kind]
+            out = [(t, 1000 + t, 1200, 1234) for t in times]
         return out
-    scen = [("growing queueing delay (over-use)", 130)]
+    scen = [("growing queueing delay (over-use)", 130), ("sparse: 0, 10, 3500 ms", 0), ("sparse: long pauses", 0)]
     if tier == "thorough":
-        scen = [("growing queueing delay (over-use)", 300), ("steady, two SSRCs, some empty packets", 420), ("bursts", 300)]
+        scen = [("growing queueing delay (over-use)", 300), ("steady, two SSRCs, some empty packets", 420), ("bursts", 300),
+                ("sparse: 0, 10, 3500 ms", 0), ("sparse: long pauses", 0), ("sparse: 200 ms of packets, 1.6 s pause, resume", 0)]
     for kind, n in scen:
         results = {}
         problem = None
@@ -337,3 +342,52 @@ def run(rep: Report, prog: Program, tier: str) -> None:
             rep.fail(mk_finding(prog, PROP, "C15-PIPE", add, add.node, f"[{label}] {problem}", construct="estimator pipeline: " + problem.split(":")[0][:50]))
         else:
             rep.ok("C15-PIPE", label, sample=(f"{len(a)} estimates, last {a[-1][1]} bit/s" if a else "no estimate yet") + ", identical across the send-time wrap")
+
+    # ---- C15-RATE: RateCounter evaluated against "the bytes that arrived within the last window_size ms"
+    rep.rule("C15-RATE", "RateCounter.rate equals the bytes of exactly the packets in the last window, zero-size packets included", min_instances=5)
+    RCC = prog.cls("rate.RateCounter")
+    r_add, r_rate = prog.func("rate.RateCounter.add"), prog.func("rate.RateCounter.rate")
+    W = 100  # a small window keeps the evaluation cheap; the code is parametric in window_size
+    streams = {
+        "steady 50-byte packets every 2 ms": [(t, 50) for t in range(0, 400, 2)],
+        "burst, silence longer than the window, burst": [(t, 80) for t in range(0, 60, 3)] + [(t, 80) for t in range(300, 360, 3)],
+        "packets then only empty packets": [(t, 70) for t in range(0, 150, 2)] + [(t, 0) for t in range(150, 420, 2)],
+        "only empty packets": [(t, 0) for t in range(0, 250, 5)],
+        "several packets per millisecond": [(t // 3, 10 + t % 7) for t in range(0, 600)],
+    }
+    for label, pkts in streams.items():
+        try:
+            rc_ = ph.instantiate(RCC, [], dict(window_size=W), pev)
+            bad = None
+            checked = 0
+            for i, (t, size) in enumerate(pkts):
+                ph.run_method(r_add, rc_, [size, t], {})
+                if i % 7 == 3 or i == len(pkts) - 1:
+                    got = ph.run_method(r_rate, rc_, [t], {})
+                    in_win = [(tt, ss) for tt, ss in pkts[: i + 1] if t - W < tt <= t]
+                    first = min(tt for tt, _ in in_win)
+                    # the counter measures from the start of its window (or from the first packet it has seen while the window is filling)
+                    start_ms = max(t - W + 1, pkts[0][0]) if not any(pkts[j + 1][0] - pkts[j][0] >= W for j in range(i)) else None
+                    if got is None:
+                        if len(in_win) >= 1 and (t - first) >= 1 and start_ms is not None and t - start_ms + 1 > 1:
+                            bad = f"at t={t} ms rate() is None although {len(in_win)} packet(s) ({sum(s_ for _, s_ in in_win)} bytes) arrived within the window"
+                            break
+                    else:
+                        checked += 1
+                        total = sum(s_ for _, s_ in in_win)
+                        if start_ms is not None:
+                            want = round(8000 * total / (t - start_ms + 1))
+                            if got != want:
+                                bad = f"at t={t} ms rate() is {got}, the bytes of the last {W} ms ({total}) give {want}"
+                                break
+                        elif total == 0 and got != 0:
+                            bad = f"at t={t} ms rate() is {got} although only empty packets are in the window"
+                            break
+            if bad:
+                rep.fail(mk_finding(prog, PROP, "C15-RATE", r_rate, r_rate.node, f"[{label}] {bad}", construct="rate counter: " + bad.split(" rate() is ")[1][:30] if " rate() is " in bad else "rate counter"))
+            else:
+                rep.ok("C15-RATE", label, sample=f"{checked} measurements equal the bytes of exactly the packets in the window")
+        except _Raised as ex:
+            rep.fail(mk_finding(prog, PROP, "C15-RATE", r_rate, getattr(ex, "node", None), f"[{label}] raises {ex.name}", construct=f"rate counter raises {ex.name}"))
+        except _UnknownP as ex:
+            raise AnalysisError(f"C15-RATE cannot evaluate [{label}]: {ex}")
